@@ -62,7 +62,7 @@ class Explorer:
         ds = [l for l in r['lines'] if 'digest' in l]
         calls = [l for l in r['lines'] if 'call' in l]
         if use_warm:
-            calls = calls[1:]
+            calls = calls[sum(1 for l in self.warmup if l.startswith('call ')):]
             base = ds[1:] if len(ds) > 1 else []
         else:
             base = ds
